@@ -60,7 +60,7 @@ def gen(tier, rng):
                         continue
                     t0 = STARTS[i % len(STARTS)]
                     iv = P.INTERVALS[i % len(P.INTERVALS)]
-                    sc = s + [term]
+                    sc = [P.NONDEC_ALIASES[k][(i + j) % len(P.NONDEC_ALIASES[k])] for j, k in enumerate(s)] + [term]
                     dl = deadline(t0, tmo, ex)
                     cl = clocks(t0, dl, len(sc) + 1, rng)
                     name, readings = cl[i % len(cl)]
